@@ -81,6 +81,22 @@ theorem C20_continuity_far [FloorRing K] (b : Basis K) (tol t : K) (htol : 0 < t
     · linarith
     · exfalso; apply hc; linarith
 
+/-- **continuity just outside a non-periodic end** (behaviour since the repair of findings C12
+    `periodic-rounded-ghost-knots-out-of-range` / C14 `loft-periodic-rounded-knots-out-of-range`): the range
+    test honours the tolerance like the multiplicity count — a parameter at most `tol` beyond an end is treated
+    like an in-domain one (strictly within `tol` of a knot of multiplicity `m`: `p − m − 1`; no knot in the
+    window: `inf`), more than `tol` beyond an end it is `ValueError`. -/
+theorem C20_continuity_beyond_end [FloorRing K] (b : Basis K) (tol t : K) (htol : 0 < tol)
+    (hsorted : KnotsSorted b) (hper : b.periodic < 0) :
+    ((b.start - tol ≤ t ∧ t ≤ b.stop + tol) →
+      (KnotsSeparated b tol → ∀ j, j < b.size → |t - b.kn j| < tol →
+          continuity b tol t = .ok (some ((b.order : ℤ) - (mult b (b.kn j) : ℤ) - 1))) ∧
+      ((∀ i, i < b.size → b.kn i < t - tol ∨ t + tol ≤ b.kn i) → continuity b tol t = .ok none)) ∧
+    ((t < b.start - tol ∨ b.stop + tol < t) → continuity b tol t = .error .value) :=
+  ⟨fun hd => ⟨fun hsep _ hj hn => continuity_of_near' b tol t hsorted hsep (Or.inr ⟨hper, hd⟩) hj hn,
+     fun hfar => continuity_of_far' b tol t (le_of_lt htol) hsorted (Or.inr ⟨hper, hd⟩) hfar⟩,
+   fun hout => continuity_out_of_range b tol t hper hout⟩
+
 omit [IsStrictOrderedRing K] in
 /-- The C20 model of `continuity` is the shared model `Basis.continuity` (used by C05/C07/C12). -/
 theorem C20_continuity_shared [FloorRing K] (b : Basis K) (tol t : K) :
@@ -495,6 +511,10 @@ example : KnotsSeparated C20_exampleBasis (1 / 10) := by
 example : snap C20_exampleBasis (1 / 10) (1 + 1 / 20) = 1 := by decide +kernel
 example : continuity C20_exampleBasis (1 / 10) (1 + 1 / 20) = .ok (some 0) := by decide +kernel
 example : continuity C20_exampleBasis (1 / 10) (1 + 1 / 5) = .ok none := by decide +kernel
+/-- just beyond the end `2` of the non-periodic example: within the tolerance it is the end knot (multiplicity 2,
+    order 2: continuity `-1`), beyond the tolerance `ValueError`. -/
+example : continuity C20_exampleBasis (1 / 10) (2 + 1 / 20) = .ok (some (-1)) := by decide +kernel
+example : continuity C20_exampleBasis (1 / 10) (2 + 1 / 5) = .error .value := by decide +kernel
 example : validateDomain C20_exampleBasis (1 / 10) [2 + 1 / 20] = .ok [2] := by decide +kernel
 example : validateDomain C20_exampleBasis (1 / 10) [2 + 1 / 5] = .error .value := by decide +kernel
 
